@@ -32,7 +32,11 @@ pub struct Opts(pub(crate) RegexOptions);
 #[derive(Default, Clone, Debug)]
 pub struct RunStats {
     pub steps: u64,
+    /// value of the VM's own backtrack counter
     pub backtracks: u64,
+    /// number of times execution resumed from a saved alternative (independent of where
+    /// the VM increments its counter)
+    pub resumes: u64,
 }
 
 #[derive(Default)]
@@ -164,6 +168,11 @@ pub fn vm_step() {
 #[inline]
 pub fn vm_backtrack() {
     RUN.with(|r| r.borrow_mut().backtracks += 1);
+}
+
+#[inline]
+pub fn vm_resume() {
+    RUN.with(|r| r.borrow_mut().resumes += 1);
 }
 
 pub fn note_delegate(pattern: &str, cfg: &SyntaxConfig) {
